@@ -164,12 +164,32 @@ Definition parse_float (s : string) : option Q :=
        | _, _ => None
        end.
 
-(** [attribute_type(text)]: [bool(text)] is "non-empty" ([bool('false')] is True, [bool(None)] False);
+(** The two places where the code changed while this model was written (both repaired in /repo):
+    - [d_for_checked]: the key named [weight_key] gives the weights only when its domain is 'edge' or
+      'all' / absent ([attrib.get('for', 'all') in ('edge', 'all')]); before, any key with that name did;
+    - [d_bool_strict]: [cast_graphml_value(bool, text)] is [str(text).strip().lower() in ('true', '1')];
+      before, [bool(text)] (any non-empty text, 'false' included, was True).
+    [current] is the code as it is now; [legacy] is kept for the refutation witnesses. *)
+Record dialect := { d_for_checked : bool; d_bool_strict : bool }.
+Definition current : dialect := {| d_for_checked := true; d_bool_strict := true |}.
+Definition legacy : dialect := {| d_for_checked := false; d_bool_strict := false |}.
+
+Definition lower_ascii (a : ascii) : ascii :=
+  let n := nat_of_ascii a in if (65 <=? n) && (n <=? 90) then ascii_of_nat (n + 32) else a.
+Fixpoint lower (s : string) : string :=
+  match s with EmptyString => EmptyString | String a t => String (lower_ascii a) (lower t) end.
+(** [str(text).strip().lower() in ('true', '1')] (blanks are the ASCII blanks) *)
+Definition bool_text (text : option string) : bool :=
+  let s := lower (strip (match text with Some s => s | None => "None" end)) in
+  (s ==s "true") || (s ==s "1").
+
+(** [cast_graphml_value(value_type, text)]: booleans as above; otherwise [value_type(text)]:
     [int(None)] / [float(None)] are TypeErrors; [str(None)] is the string 'None';
     a None type is not callable. *)
-Definition cast (t : ptype) (text : option string) : result value :=
+Definition cast (dl : dialect) (t : ptype) (text : option string) : result value :=
   match t with
-  | PBool => Ok (VBool (match text with Some s => negb (s ==s "") | None => false end))
+  | PBool => Ok (VBool (if d_bool_strict dl then bool_text text
+                        else match text with Some s => negb (s ==s "") | None => false end))
   | PInt => match text with
             | None => Raise TypeError
             | Some s => match parse_int s with Some z => Ok (VInt z) | None => Raise ValueError end
@@ -267,24 +287,24 @@ Definition kinit : kstate :=
      k_desc := None; k_dnode := []; k_dedge := [] |}.
 
 (** [for key_element in file_element: if tag.endswith('default'): default_weight = attribute_type(text)] *)
-Fixpoint weight_default (ty : ptype) (kes : list xml) (dw : value) : result value :=
+Fixpoint weight_default (dl : dialect) (ty : ptype) (kes : list xml) (dw : value) : result value :=
   match kes with
   | [] => Ok dw
   | ke :: t => if is_tag "default" ke
-               then v <- cast ty (x_text ke) ;; weight_default ty t v
-               else weight_default ty t dw
+               then v <- cast dl ty (x_text ke) ;; weight_default dl ty t v
+               else weight_default dl ty t dw
   end.
 
 (** Children of a node / edge key: descriptions and default value. *)
-Fixpoint key_children (name : string) (ty : ptype) (kes : list xml)
+Fixpoint key_children (dl : dialect) (name : string) (ty : ptype) (kes : list xml)
          (descs : list (string * option string)) (dv : option value)
   : result (list (string * option string) * option value) :=
   match kes with
   | [] => Ok (descs, dv)
   | ke :: t =>
-      if is_tag "desc" ke then key_children name ty t (aset name (x_text ke) descs) dv
-      else if is_tag "default" ke then v <- cast ty (x_text ke) ;; key_children name ty t descs (Some v)
-      else key_children name ty t descs dv
+      if is_tag "desc" ke then key_children dl name ty t (aset name (x_text ke) descs) dv
+      else if is_tag "default" ke then v <- cast dl ty (x_text ke) ;; key_children dl name ty t descs (Some v)
+      else key_children dl name ty t descs dv
   end.
 
 (** [np.full(size, default_value, dtype)] if the default is truthy, else [np.zeros(size, dtype)];
@@ -297,28 +317,34 @@ Definition fill_of (mss : nat) (ty : ptype) (dv : option value) : value :=
 
 Definition some_or_empty {A} (o : option (list A)) : list A := match o with Some l => l | None => [] end.
 
-Definition key_step (wk : string) (mss : nat) (st : result kstate) (fe : xml) : result kstate :=
+(** Is this key the one giving the edge weights? *)
+Definition weight_key_test (dl : dialect) (wk name : string) (fe : xml) : bool :=
+  (name ==s wk) &&
+  (if d_for_checked dl
+   then match attr "for" fe with Some d => (d ==s "edge") || (d ==s "all") | None => true end
+   else true).
+
+Definition key_step (dl : dialect) (wk : string) (mss : nat) (st : result kstate) (fe : xml) : result kstate :=
   k <- st ;;
   if is_tag "key" fe then
     name <- get_attr "attr.name" fe ;;
     tyname <- get_attr "attr.type" fe ;;
     let ty := java_type tyname in
-    if name ==s wk then
-      (* the key named like weight_key, whatever its domain *)
+    if weight_key_test dl wk name fe then
       id <- get_attr "id" fe ;;
-      dw <- weight_default ty (x_children fe) (k_dw k) ;;
+      dw <- weight_default dl ty (x_children fe) (k_dw k) ;;
       Ok {| k_dw := dw; k_wty := ty; k_wid := Some id; k_nattr := k_nattr k; k_eattr := k_eattr k;
             k_keys := k_keys k; k_desc := k_desc k; k_dnode := k_dnode k; k_dedge := k_dedge k |}
     else
       dom <- get_attr "for" fe ;;
       k' <- (if dom ==s "node" then
-               r <- key_children name ty (x_children fe) (k_dnode k) None ;;
+               r <- key_children dl name ty (x_children fe) (k_dnode k) None ;;
                Ok {| k_dw := k_dw k; k_wty := k_wty k; k_wid := k_wid k;
                      k_nattr := Some (aset name (ty, fill_of mss ty (snd r)) (some_or_empty (k_nattr k)));
                      k_eattr := k_eattr k; k_keys := k_keys k; k_desc := k_desc k;
                      k_dnode := fst r; k_dedge := k_dedge k |}
              else if dom ==s "edge" then
-               r <- key_children name ty (x_children fe) (k_dedge k) None ;;
+               r <- key_children dl name ty (x_children fe) (k_dedge k) None ;;
                Ok {| k_dw := k_dw k; k_wty := k_wty k; k_wid := k_wid k;
                      k_nattr := k_nattr k;
                      k_eattr := Some (aset name (ty, fill_of mss ty (snd r)) (some_or_empty (k_eattr k)));
@@ -333,8 +359,8 @@ Definition key_step (wk : string) (mss : nat) (st : result kstate) (fe : xml) : 
     Ok {| k_dw := k_dw k; k_wty := k_wty k; k_wid := k_wid k; k_nattr := k_nattr k; k_eattr := k_eattr k;
           k_keys := k_keys k; k_desc := x_text fe; k_dnode := k_dnode k; k_dedge := k_dedge k |}
   else Ok k.
-Definition scan_keys (wk : string) (mss : nat) (root : xml) : result kstate :=
-  fold_left (key_step wk mss) (x_children root) (Ok kinit).
+Definition scan_keys (dl : dialect) (wk : string) (mss : nat) (root : xml) : result kstate :=
+  fold_left (key_step dl wk mss) (x_children root) (Ok kinit).
 
 (** * Nodes and edges *)
 
@@ -369,12 +395,12 @@ Inductive assign := AWeight (v : value) | AAttr (name : string) (v : value).
     key table, cast), then the target (AttributeError when no key of that domain was declared, KeyError
     when the name is not an attribute of that domain).
     [Unmodelled]: two keys of one domain sharing a name with different types (NumPy conversion). *)
-Definition attr_assign (keys : list (string * (string * ptype))) (cols : option (list (string * acol)))
+Definition attr_assign (dl : dialect) (keys : list (string * (string * ptype))) (cols : option (list (string * acol)))
            (mss : nat) (kid : string) (text : option string) : result assign :=
   match alookup kid keys with
   | None => Raise KeyError
   | Some (name, ty) =>
-      v <- cast ty text ;;
+      v <- cast dl ty text ;;
       match cols with
       | None => Raise AttributeError
       | Some al => match alookup name al with
@@ -385,21 +411,21 @@ Definition attr_assign (keys : list (string * (string * ptype))) (cols : option 
   end.
 
 (** [for node_attribute in node: if tag.endswith('data'): ...] *)
-Fixpoint node_data (keys : list (string * (string * ptype))) (cols : option (list (string * acol)))
+Fixpoint node_data (dl : dialect) (keys : list (string * (string * ptype))) (cols : option (list (string * acol)))
          (mss : nat) (cs : list xml) : result (list assign) :=
   match cs with
   | [] => Ok []
   | c :: t =>
       if is_tag "data" c then
         kid <- get_attr "key" c ;;
-        a <- attr_assign keys cols mss kid (x_text c) ;;
-        rest <- node_data keys cols mss t ;;
+        a <- attr_assign dl keys cols mss kid (x_text c) ;;
+        rest <- node_data dl keys cols mss t ;;
         Ok (a :: rest)
-      else node_data keys cols mss t
+      else node_data dl keys cols mss t
   end.
 
 (** [for edge_attribute in edge: if tag.endswith('data'): if attrib['key'] == weight_id: dat[..] = weight_type(text) else: ...] *)
-Fixpoint edge_data (keys : list (string * (string * ptype))) (wid : option string) (wty : ptype)
+Fixpoint edge_data (dl : dialect) (keys : list (string * (string * ptype))) (wid : option string) (wty : ptype)
          (cols : option (list (string * acol))) (mss : nat) (cs : list xml) : result (list assign) :=
   match cs with
   | [] => Ok []
@@ -407,11 +433,11 @@ Fixpoint edge_data (keys : list (string * (string * ptype))) (wid : option strin
       if is_tag "data" c then
         kid <- get_attr "key" c ;;
         a <- (if match wid with Some w => kid ==s w | None => false end
-              then v <- cast wty (x_text c) ;; Ok (AWeight v)
-              else attr_assign keys cols mss kid (x_text c)) ;;
-        rest <- edge_data keys wid wty cols mss t ;;
+              then v <- cast dl wty (x_text c) ;; Ok (AWeight v)
+              else attr_assign dl keys cols mss kid (x_text c)) ;;
+        rest <- edge_data dl keys wid wty cols mss t ;;
         Ok (a :: rest)
-      else edge_data keys wid wty cols mss t
+      else edge_data dl keys wid wty cols mss t
   end.
 
 (** Last value written to a slot, else the fill. *)
@@ -424,23 +450,23 @@ Definition last_weight (ups : list assign) (fill : value) : value :=
 Definition graph_item (g : xml) (index : nat) : result xml :=
   match nth_error (x_children g) index with Some e => Ok e | None => Raise IndexError end.
 
-Definition process_node (g : xml) (naming : bool) (keys : list (string * (string * ptype)))
+Definition process_node (dl : dialect) (g : xml) (naming : bool) (keys : list (string * (string * ptype)))
            (cols : option (list (string * acol))) (mss : nat) (index : nat) : result (string * list assign) :=
   node <- graph_item g index ;;
   name <- (if naming then get_attr "id" node else Ok "") ;;
-  ups <- node_data keys cols mss (x_children node) ;;
+  ups <- node_data dl keys cols mss (x_children node) ;;
   Ok (name, ups).
 
 (** A stored entry: row, column, assignments made to its slot. *)
 Definition slot := (nat * nat * list assign)%type.
 
-Definition process_edge (g : xml) (naming : bool) (ids : list string) (n : nat) (sym : bool)
+Definition process_edge (dl : dialect) (g : xml) (naming : bool) (ids : list string) (n : nat) (sym : bool)
            (keys : list (string * (string * ptype))) (wid : option string) (wty : ptype)
            (cols : option (list (string * acol))) (mss : nat) (index : nat) : result (list slot) :=
   e <- graph_item g index ;;
   n1 <- endpoint naming ids n "source" e ;;
   n2 <- endpoint naming ids n "target" e ;;
-  ups <- edge_data keys wid wty cols mss (x_children e) ;;
+  ups <- edge_data dl keys wid wty cols mss (x_children e) ;;
   Ok ((n1, n2, ups) :: (if edge_mirrored sym e then [(n2, n1, ups)] else [])).
 
 (** [np.full(n_edges, default_weight, dtype=weight_type)]: the dtype ([None]: inferred from the value)
@@ -480,9 +506,9 @@ Definition meta_of (k : kstate) :=
 
 Definition names_width : nat := 512.     (* data.names = np.zeros(n_nodes, dtype='<U512') *)
 
-Definition from_graphml (wk : string) (mss : nat) (root : xml) : result bunch :=
+Definition from_graphml_with (dl : dialect) (wk : string) (mss : nat) (root : xml) : result bunch :=
   s <- scan_root root ;;
-  k <- scan_keys wk mss root ;;
+  k <- scan_keys dl wk mss root ;;
   match s_graph s with
   | None => Raise ValueError                                   (* No graph defined *)
   | Some g =>
@@ -490,9 +516,9 @@ Definition from_graphml (wk : string) (mss : nat) (root : xml) : result bunch :=
       wfill <- convert dtype (k_dw k) ;;
       let n := s_nn s in
       let naming := s_naming s in
-      nres <- mapM (process_node g naming (k_keys k) (k_nattr k) mss) (s_nidx s) ;;
+      nres <- mapM (process_node dl g naming (k_keys k) (k_nattr k) mss) (s_nidx s) ;;
       let ids := map fst nres in
-      eres <- mapM (process_edge g naming ids n (s_sym s) (k_keys k) (k_wid k) (k_wty k) (k_eattr k) mss) (s_eidx s) ;;
+      eres <- mapM (process_edge dl g naming ids n (s_sym s) (k_keys k) (k_wid k) (k_wty k) (k_eattr k) mss) (s_eidx s) ;;
       let slots := concat eres in
       if s_ne s <? length slots then Raise IndexError else
       let pad := s_ne s - length slots in
@@ -514,6 +540,8 @@ Definition from_graphml (wk : string) (mss : nat) (root : xml) : result bunch :=
                 b_meta := meta_of k |}
       end
   end.
+
+Definition from_graphml := from_graphml_with current.
 
 (** * Denotation of the adjacency matrix *)
 
@@ -548,7 +576,7 @@ Definition doc_naming (g : xml) : bool :=
 Definition attr_or_empty (k : string) (e : xml) : string := match attr k e with Some v => v | None => "" end.
 (** Node identifiers in document order (canonical documents: no names are kept). *)
 Definition doc_ids (g : xml) : list string :=
-  if doc_naming g then map (attr_or_empty "id") (doc_nodes g) else map (fun _ => "") (doc_nodes g).
+  map (fun nd => if doc_naming g then attr_or_empty "id" nd else "") (doc_nodes g).
 
 (** Index of the node an edge end refers to. *)
 Definition doc_index (g : xml) (which : string) (e : xml) : option nat :=
@@ -558,38 +586,66 @@ Definition doc_index (g : xml) (which : string) (e : xml) : option nat :=
               else match canonical_index (length (doc_nodes g)) s with Ok k => Some k | Raise _ => None end
   end.
 
-(** The key the code takes for the weights: the last key element whose attr.name is [wk]
-    (type, id), and the default weight: the last <default> of any such key, else 1. *)
-Definition is_weight_key (wk : string) (fe : xml) : bool :=
-  is_tag "key" fe && match attr "attr.name" fe with Some nm => nm ==s wk | None => false end.
-Definition cast_or (t : ptype) (text : option string) (dflt : value) : value :=
-  match cast t text with Ok v => v | Raise _ => dflt end.
+(** The key table read off the document: the second walk without its exceptions (a missing attribute
+    reads as the empty string, a literal that does not parse keeps the previous value). On every
+    document the code accepts this is exactly the table the code builds ([scan_keys_pure]). *)
+Definition cast_or (dl : dialect) (t : ptype) (text : option string) (dflt : value) : value :=
+  match cast dl t text with Ok v => v | Raise _ => dflt end.
 Definition key_type (fe : xml) : ptype := java_type (attr_or_empty "attr.type" fe).
-Definition weight_info_step (wk : string) (st : value * ptype * option string) (fe : xml) : value * ptype * option string :=
-  if is_weight_key wk fe then
-    let ty := key_type fe in
-    (fold_left (fun dw ke => if is_tag "default" ke then cast_or ty (x_text ke) dw else dw) (x_children fe) (fst (fst st)),
-     ty, attr "id" fe)
-  else st.
-Definition weight_info (wk : string) (root : xml) : value * ptype * option string :=
-  fold_left (weight_info_step wk) (x_children root) (VInt 1, PBool, None).
+Definition is_weight_key (dl : dialect) (wk : string) (fe : xml) : bool :=
+  is_tag "key" fe && weight_key_test dl wk (attr_or_empty "attr.name" fe) fe.
 
-Definition doc_wtype (wk : string) (root : xml) : ptype :=
-  let '(dw, ty, _) := weight_info wk root in weight_dtype ty dw.
-Definition doc_wfill (wk : string) (root : xml) : value :=
-  let '(dw, ty, _) := weight_info wk root in
-  match convert (weight_dtype ty dw) dw with Ok v => v | Raise _ => dw end.
+(** Default of a key: its LAST <default> child, cast to the key's type. *)
+Definition last_default (dl : dialect) (ty : ptype) (kes : list xml) (start : option value) : option value :=
+  fold_left (fun dv ke => if negb (is_tag "desc" ke) && is_tag "default" ke
+                          then Some (cast_or dl ty (x_text ke) (zero_of ty)) else dv) kes start.
+Definition weight_default_pure (dl : dialect) (ty : ptype) (kes : list xml) (dw : value) : value :=
+  fold_left (fun dw ke => if is_tag "default" ke then cast_or dl ty (x_text ke) dw else dw) kes dw.
+Definition descs_pure (name : string) (kes : list xml) (descs : list (string * option string)) :=
+  fold_left (fun ds ke => if is_tag "desc" ke then aset name (x_text ke) ds else ds) kes descs.
+
+Definition key_step_pure (dl : dialect) (wk : string) (mss : nat) (k : kstate) (fe : xml) : kstate :=
+  if is_tag "key" fe then
+    let name := attr_or_empty "attr.name" fe in
+    let ty := key_type fe in
+    if weight_key_test dl wk name fe then
+      {| k_dw := weight_default_pure dl ty (x_children fe) (k_dw k); k_wty := ty; k_wid := attr "id" fe;
+         k_nattr := k_nattr k; k_eattr := k_eattr k; k_keys := k_keys k; k_desc := k_desc k;
+         k_dnode := k_dnode k; k_dedge := k_dedge k |}
+    else
+      let dom := attr_or_empty "for" fe in
+      let col := (ty, fill_of mss ty (last_default dl ty (x_children fe) None)) in
+      {| k_dw := k_dw k; k_wty := k_wty k; k_wid := k_wid k;
+         k_nattr := if dom ==s "node" then Some (aset name col (some_or_empty (k_nattr k))) else k_nattr k;
+         k_eattr := if dom ==s "node" then k_eattr k
+                    else if dom ==s "edge" then Some (aset name col (some_or_empty (k_eattr k))) else k_eattr k;
+         k_keys := aset (attr_or_empty "id" fe) (name, ty) (k_keys k);
+         k_desc := k_desc k;
+         k_dnode := if dom ==s "node" then descs_pure name (x_children fe) (k_dnode k) else k_dnode k;
+         k_dedge := if dom ==s "node" then k_dedge k
+                    else if dom ==s "edge" then descs_pure name (x_children fe) (k_dedge k) else k_dedge k |}
+  else if is_tag "desc" fe then
+    {| k_dw := k_dw k; k_wty := k_wty k; k_wid := k_wid k; k_nattr := k_nattr k; k_eattr := k_eattr k;
+       k_keys := k_keys k; k_desc := x_text fe; k_dnode := k_dnode k; k_dedge := k_dedge k |}
+  else k.
+Definition doc_keys (dl : dialect) (wk : string) (mss : nat) (root : xml) : kstate :=
+  fold_left (key_step_pure dl wk mss) (x_children root) kinit.
+
+(** Type of the weights (dtype of the matrix) and weight of an edge that carries no weight data:
+    the default of the weight key, else 1, converted to that type. *)
+Definition doc_wtype (k : kstate) : ptype := weight_dtype (k_wty k) (k_dw k).
+Definition doc_wfill (k : kstate) : value :=
+  match convert (doc_wtype k) (k_dw k) with Ok v => v | Raise _ => k_dw k end.
 
 (** Weight of an edge: the text of its LAST <data> child referring to the weight key, cast to the key's
-    type; when there is none, the default weight (the key's <default>, else 1). *)
+    type; when there is none, the default weight. *)
 Definition weight_data (wid : option string) (e : xml) : list xml :=
   filter (fun c => is_tag "data" c &&
                    match attr "key" c, wid with Some kid, Some w => kid ==s w | _, _ => false end) (x_children e).
-Definition doc_weight (wk : string) (root : xml) (e : xml) : value :=
-  let '(_, ty, wid) := weight_info wk root in
-  match rev (weight_data wid e) with
-  | c :: _ => cast_or ty (x_text c) (doc_wfill wk root)
-  | [] => doc_wfill wk root
+Definition doc_weight (dl : dialect) (k : kstate) (e : xml) : value :=
+  match rev (weight_data (k_wid k) e) with
+  | c :: _ => cast_or dl (k_wty k) (x_text c) (doc_wfill k)
+  | [] => doc_wfill k
   end.
 
 (** Weights listed for position (i, j) by one edge: its weight if it goes from i to j, and once more
@@ -599,33 +655,51 @@ Definition ends_are (g : xml) (e : xml) (i j : nat) : bool :=
   | Some a, Some b => (a =? i) && (b =? j)
   | _, _ => false
   end.
-Definition listed_by (wk : string) (root g : xml) (i j : nat) (e : xml) : list value :=
-  (if ends_are g e i j then [doc_weight wk root e] else [])
-  ++ (if edge_mirrored (doc_sym g) e && ends_are g e j i then [doc_weight wk root e] else []).
-Definition spec_gm_entry (wk : string) (root g : xml) (i j : nat) : Q :=
-  dsumq (doc_wtype wk root) (map qval (flat_map (listed_by wk root g i j) (doc_edges g))).
+Definition listed_by (dl : dialect) (k : kstate) (g : xml) (i j : nat) (e : xml) : list value :=
+  (if ends_are g e i j then [doc_weight dl k e] else [])
+  ++ (if edge_mirrored (doc_sym g) e && ends_are g e j i then [doc_weight dl k e] else []).
+Definition spec_gm_entry (dl : dialect) (k : kstate) (g : xml) (i j : nat) : Q :=
+  dsumq (doc_wtype k) (map qval (flat_map (listed_by dl k g i j) (doc_edges g))).
 
-(** Attribute columns. [doc_key_names keys dom]: for a <data key=kid>, the attribute it feeds. *)
-Definition data_value (keys : list (string * (string * ptype))) (mss : nat) (name : string) (fill : value) (cs : list xml) : value :=
+(** Value of attribute [name] for one node / edge: the text of the LAST <data> child whose key feeds
+    that attribute, cast to the key's type (strings cut to the array width); else the column's fill. *)
+Definition data_value (dl : dialect) (keys : list (string * (string * ptype))) (wid : option string) (mss : nat)
+           (name : string) (fill : value) (cs : list xml) : value :=
   fold_left (fun acc c =>
                if is_tag "data" c then
                  match attr "key" c with
-                 | Some kid => match alookup kid keys with
-                               | Some (nm, ty) => if nm ==s name then store mss (cast_or ty (x_text c) acc) else acc
-                               | None => acc
-                               end
+                 | Some kid =>
+                     if match wid with Some w => kid ==s w | None => false end then acc
+                     else match alookup kid keys with
+                          | Some (nm, ty) => if nm ==s name then store mss (cast_or dl ty (x_text c) acc) else acc
+                          | None => acc
+                          end
                  | None => acc
                  end
                else acc) cs fill.
 
-(** * The GraphML reading of weights (what a reader of the standard expects) *)
+(** Stored entries of the matrix, in order: each edge once, a mirrored edge twice in a row. *)
+Definition doc_slots (g : xml) : list xml :=
+  flat_map (fun e => e :: (if edge_mirrored (doc_sym g) e then [e] else [])) (doc_edges g).
+
+Definition node_columns (dl : dialect) (k : kstate) (mss : nat) (g : xml) :=
+  option_map (map (fun c : string * acol =>
+     (fst c, (fst (snd c), map (fun nd => data_value dl (k_keys k) None mss (fst c) (snd (snd c)) (x_children nd)) (doc_nodes g)))))
+   (k_nattr k).
+Definition edge_columns (dl : dialect) (k : kstate) (mss : nat) (g : xml) :=
+  option_map (map (fun c : string * acol =>
+     (fst c, (fst (snd c), map (fun e => data_value dl (k_keys k) (k_wid k) mss (fst c) (snd (snd c)) (x_children e)) (doc_slots g)))))
+   (k_eattr k).
+
+(** * The GraphML reading of the weight key and of booleans (what a reader of the standard expects) *)
 
 (** xs:boolean *)
 Definition gml_bool (text : option string) : bool :=
   match text with Some s => (strip s ==s "true") || (strip s ==s "1") | None => false end.
-(** A key declares EDGE weights when its domain is edge or all (the default domain). *)
+(** A key declares EDGE weights when it carries the weight name and its domain is edge or all (the default domain). *)
 Definition is_edge_weight_key (wk : string) (fe : xml) : bool :=
-  is_weight_key wk fe && match attr "for" fe with Some d => (d ==s "edge") || (d ==s "all") | None => true end.
+  is_tag "key" fe && (attr_or_empty "attr.name" fe ==s wk) &&
+  match attr "for" fe with Some d => (d ==s "edge") || (d ==s "all") | None => true end.
 
 (** * Views for the harness (everything printed in a form the harness parser reads) *)
 
